@@ -99,7 +99,10 @@ def _flow_apply(ctx, retsets, undo_values):
             if cal == fsm.CHANGE:
                 return ["state"]
             if cal in ("pfx_table_free_without_notify", "spki_table_free_without_notify"):
-                return ["free_" + cal.split("_")[0]]
+                w = cal.split("_")[0]
+                return ["free_" + w] + ([] if st.get("init_" + w) else ["free_uninit_" + w])
+            if cal in ("pfx_table_init", "spki_table_init") and vf.expr(fn, inst.args[0]) not in (LIVE_PFX, LIVE_SPKI):
+                return ["init_" + cal.split("_")[0]]
             if cal in ("pfx_table_free", "spki_table_free"):
                 return ["loudfree_" + cal.split("_")[0]]
             if cal == "lrtr_malloc":
@@ -142,7 +145,7 @@ def r2_r3_r4(ctx, retsets):
         raise AnalysisBroken("no return state of %s" % RECV)
     err = pdb.enum_value("RTR_ERROR")
     nfail = ncommit = 0
-    agg = {"R2": [], "R3purge": [], "R3state": [], "R4swap": [], "R4free": []}
+    agg = {"R2": [], "R3purge": [], "R3state": [], "R4swap": [], "R4free": [], "R4init": []}
     for o in outs:
         c = o["counts"]
         ret = flow.av_single(o["ret"])
@@ -170,6 +173,8 @@ def r2_r3_r4(ctx, retsets):
             if c.get("alloc_" + which) and (c.get("free_" + which) != 1 or c.get("loudfree_" + which)):
                 agg["R4free"].append((where, "%s shadow table allocated but released %s time(s) silently, %s loudly" % (
                     which, c.get("free_" + which, 0), c.get("loudfree_" + which, 0)), path))
+            if c.get("free_uninit_" + which):
+                agg["R4init"].append((where, "%s shadow table torn down as a table (free_without_notify) on a path on which it was allocated but never initialised" % which, path))
             if not c.get("alloc_" + which) and c.get("free_" + which):
                 agg["R4free"].append((where, "%s shadow table released without having been allocated" % which, path))
         if (c.get("swap_pfx", 0) != c.get("swap_spki", 0)):
@@ -186,13 +191,51 @@ def r2_r3_r4(ctx, retsets):
                                    ("R3purge", "C03.R3", "undo-failure=>purge-both+reset", "%d failure states: any failed undo purges both live tables and forces a reset" % nfail),
                                    ("R3state", "C03.R3", "failure=>RTR_ERROR+state", "every failure arm returns RTR_ERROR after a state change"),
                                    ("R4swap", "C03.R4", "swap-only-on-success", "both tables are swapped together and only when every update succeeded"),
-                                   ("R4free", "C03.R4", "shadow-released-silently", "allocated shadow tables are released exactly once, without notifications")):
+                                   ("R4free", "C03.R4", "shadow-released-silently", "allocated shadow tables are released exactly once, without notifications"),
+                                   ("R4init", "C03.R4", "shadow-initialised-before-teardown", "a shadow table is torn down as a table only on paths that initialised it")):
         if agg[key]:
             w, msg, path = agg[key][0]
             ctx.violation(rule, inst, w, msg + (" (+%d more states)" % (len(agg[key]) - 1) if len(agg[key]) > 1 else ""),
                           key="%s:%s" % (rule, "undo-failure" if key == "R3purge" else inst), path=path)
         else:
             ctx.ok(rule, inst, "%s:%d" % (fn.relfile, fn.line), oktxt)
+    # the undo functions hand the inverse table operation's verdict through unchanged: "could not be undone" must reach the caller
+    for uname, ops, flagfield in (("rtr_undo_update_pfx_table", {1: "pfx_table_remove", 0: "pfx_table_add"}, ("pdu_ipv4.flags", "pdu_ipv6.flags")),
+                                  ("rtr_undo_update_spki_table", {1: "spki_table_remove_entry", 0: "spki_table_add_entry"}, ("pdu_router_key.flags",))):
+        uf = pdb.fn(uname)
+        ctx.touch(uf)
+        codes = set()
+        for opn in ops.values():
+            g = pdb.fn(opn)
+            rs = retsets.get((g.unit, g.name))
+            codes |= set(rs) if rs and rs != "TOP" else {0, -1, -2, -3}
+        bad = []
+        ncell = 0
+        for fl_ in (0, 1, 2):
+            for code in sorted(codes) if fl_ in ops else [None]:
+                ncell += 1
+
+                def values(pe, fl_=fl_):
+                    return fl_ if vf.last_field(pe) in flagfield else None
+
+                def classify_u(inst, E, st, code=code):
+                    if inst.op == "call" and inst.callee in ops.values():
+                        tab_ok = vf.expr(uf, inst.args[0]) == ("arg", 1)
+                        return [(["op:" + inst.callee + ("" if tab_ok else ":wrong-table")], {inst.ref: flow.av_in(code if code is not None else 0)})]
+                    return None
+                outs_u, _f = es.count_effects(uf, pdb, classify_u, retsets, values=values)
+                for o in outs_u:
+                    r = flow.av_single(o["ret"])
+                    if fl_ in ops:
+                        if o["counts"] != {"op:" + ops[fl_]: 1} or r != code:
+                            bad.append("flags=%d, %s returns %d: effects %s, undo returns %s" % (fl_, ops[fl_], code, o["counts"], r))
+                    elif o["counts"] or r in (0, None):
+                        bad.append("flags=%d (neither announce nor withdraw): effects %s, undo returns %s" % (fl_, o["counts"], r))
+                if not outs_u:
+                    bad.append("flags=%d: no outcome" % fl_)
+        ctx.check(not bad, "C03.R3", "%s:inverse-op-verdict-passed-through" % uname, "%s:%d" % (uf.relfile, uf.line),
+                  bad[0] if bad else "%d cells (flags x result code of the inverse operation): the inverse operation on the given table, its result returned unchanged" % ncell,
+                  key="C03.R3:%s:verdict" % uname)
     # R3 coverage of the undo loops
     loops = es.index_loops(fn)
     apply_loops = []
@@ -329,6 +372,10 @@ def check(ctx):
     with ctx.shared({"C05.R6": ("C03.R7", "next-query state (session id, serial number, request flag) is written only at the commit point of a "
                                 "complete response or when the socket's data is given up: a failed response leaves it as it was")}):
         C05.r6(ctx, retsets)
+    from specs import C02
+    with ctx.shared({"C02.R3": ("C03.R8", "the purge fallback removes every record of the socket: every element of that source, both children, both "
+                                "address families whatever the other family holds")}):
+        C02.r3(ctx, retsets)
     ctx.not_decided("that the table contents equal previous + announcements - withdrawals (C02's set semantics composed with R1-R5)")
     ctx.not_decided("cancellation of the worker thread in the middle of the receive loop (covered by rtr_stop's purge, C07.R4)")
 
